@@ -365,6 +365,10 @@ Hang(e) ==
   /\ Chk(<< <<"terminates", {"C07", "C08", "C10", "C18", "C02"}, FALSE>> >>)
   /\ UNCH(<<nf, nx, mdl, batch, x0st, curxid, ptxid, bestf, bestBeforeFault, faulted, raisedSeen>>) /\ UNCH(Rest1)
 
+\* C16: a numerical identity class computed by the model driver (harness/modeldriver.py) after a fit / query / base shift
+Ident(e) == /\ Chk(<< <<"identity_" \o e.kind, {"C16"}, e.ok>> >>)
+            /\ UNCH(<<nf, nx, mdl, batch, x0st, curxid, ptxid, bestf, bestBeforeFault, faulted, raisedSeen>>) /\ UNCH(Rest1)
+
 Other(e) == /\ Chk(<< >>)
             /\ UNCH(<<nf, nx, mdl, batch, x0st, curxid, ptxid, bestf, bestBeforeFault, faulted, raisedSeen>>) /\ UNCH(Rest1)
 
@@ -408,6 +412,7 @@ Step ==
        [] e.ev = "Return" -> Return(e)
        [] e.ev = "Raise" -> Raise(e)
        [] e.ev = "Hang" -> Hang(e)
+       [] e.ev = "Ident" -> Ident(e)
        [] OTHER -> Other(e)
 
 Spec == Init /\ [][Step]_vars
